@@ -280,6 +280,29 @@ def valence_guards(ck, fb, cls):
 
 
 # ------------------------------------------------------------------------------------------------ C16
+def sheet_rule(ck, fb, rule="C16.tables"):
+    """CellSheetCellIter excludes exactly the given direction and its opposite (shared with C05: it is a circulator)"""
+    from .canon import Canon
+    # sheet iterator excludes exactly _orthDir and its opposite
+    cs = [h for h in fb.fns.values() if h.cls == "OpenVolumeMesh::CellSheetCellIter" and h.kind == "ctor" and h.has_cfg and len(h.d["params"]) == 4]
+    if not cs:
+        raise AnalysisBroken("anchor vanished: CellSheetCellIter constructor")
+    cs = cs[0]
+    scn = Canon(cs)
+    dirp = [k for k, p_ in enumerate(cs.d["params"]) if "char" in p_["t"]]
+    if len(dirp) != 1:
+        raise AnalysisBroken("CellSheetCellIter constructor: the direction parameter (unsigned char) is not unique")
+    D = "P%d" % dirp[0]
+    pushes = [(b, x) for b, i, x in cs.nodes(("call",)) if x.get("pn", "").split("::")[-1] == "push_back"]
+    ok = False
+    for b, x in pushes:
+        at = {(scn.s(c), pol) for c, pol, e in cs.facts(b) if isinstance(pol, bool)}
+        ne1 = any("orientation(" in c and c.endswith("!= %s)" % D) and pol is True for c, pol in at)
+        ne2 = any("orientation(" in c and "!= " in c and "opposite_orientation(%s)" % D in c and pol is True for c, pol in at)
+        ok = ne1 and ne2
+    (ck.ok if ok else lambda r, w, t: ck.violate(r, w, t, "%s:sheet" % rule))(rule, cs.where, "CellSheetCellIter collects neighbours across the four halffaces whose orientation is neither _orthDir nor its opposite")
+
+
 def orthogonal_table(ck, g, consts, cname, opp):
     """the table form of orthogonal_orientation (if it is written as one): extracted entries and their algebraic laws"""
     cyc = [2, 4, 3, 5]
@@ -523,24 +546,7 @@ def run_c16(ck, fb, fbd):
                     reverse_walk = any(x.get("pn", "").split("::")[-1] in ("rbegin", "rend", "crbegin") for bb, ii, x in h.nodes(("call",)))
                     ok = ("halfface(" in s and "face(" not in s.replace("halfface(", "")) or ("face(" in s and reverse_walk)
                     (ck.ok if ok else lambda r, w, t: ck.violate(r, w, t, "C16.tables:accessor:%s:%s" % (h.name, v["n"])))("C16.tables", h.loc(d), "%s: the walked halfedge list %s comes from the orientation-aware halfface() accessor (%s)" % (h.name, v["n"], s[:60]))
-    # sheet iterator excludes exactly _orthDir and its opposite
-    cs = [h for h in fb.fns.values() if h.cls == "OpenVolumeMesh::CellSheetCellIter" and h.kind == "ctor" and h.has_cfg and len(h.d["params"]) == 4]
-    if not cs:
-        raise AnalysisBroken("anchor vanished: CellSheetCellIter constructor")
-    cs = cs[0]
-    scn = Canon(cs)
-    dirp = [k for k, p_ in enumerate(cs.d["params"]) if "char" in p_["t"]]
-    if len(dirp) != 1:
-        raise AnalysisBroken("CellSheetCellIter constructor: the direction parameter (unsigned char) is not unique")
-    D = "P%d" % dirp[0]
-    pushes = [(b, x) for b, i, x in cs.nodes(("call",)) if x.get("pn", "").split("::")[-1] == "push_back"]
-    ok = False
-    for b, x in pushes:
-        at = {(scn.s(c), pol) for c, pol, e in cs.facts(b) if isinstance(pol, bool)}
-        ne1 = any("orientation(" in c and c.endswith("!= %s)" % D) and pol is True for c, pol in at)
-        ne2 = any("orientation(" in c and "!= " in c and "opposite_orientation(%s)" % D in c and pol is True for c, pol in at)
-        ok = ne1 and ne2
-    (ck.ok if ok else lambda r, w, t: ck.violate(r, w, t, "C16.tables:sheet"))("C16.tables", cs.where, "CellSheetCellIter collects neighbours across the four halffaces whose orientation is neither _orthDir nor its opposite")
+    sheet_rule(ck, fb)
     ck.rule("C11.valence", "hexahedral add_face/add_cell reach the base implementation only with 4/6 entries")
     valence_guards(ck, fb, HEX)
 
